@@ -120,20 +120,57 @@ Theorem C10_istep_override : forall z s req c acts c' idxs, istep z (Some s) req
   exists c2, engine_step z req (with_S c s) acts = Ok (c2, idxs) /\ c' = with_S c2 (S c) /\ T c' = T c + s.
 Proof. exact istep_override. Qed.
 
+(* ---- untracked simulants.  The engine hands the clock the FULL population, untracked simulants included (engine.py
+   since commit a70d8de6, under every context class); [untracked] is part of the model state and no clock operation
+   reads it.  Hence: the whole schedule (clock, global step, both clock columns, pending move-to-end set, errors) of
+   ANY history is that of the same history with all untracking erased, whatever was untracked before ... ---- *)
+Theorem C10_untracked_never_matters : forall ops c u,
+  clock_of (run_ops c ops) = clock_of (run_ops (with_untracked c u) (erase_untrack ops)).
+Proof. exact untracked_never_matters. Qed.
+
+(* ... untracking keeps the invariant (so C10_invariant_history / C10_invariant_run cover histories with Untrack) and an
+   untracked simulant is in an event index exactly when its time has been reached *)
+Theorem C10_untracked_in_events : forall c r, WF c -> Inv c -> In r (rows c) -> In (lbl r) (untracked c) ->
+  (In (lbl r) (active c) <-> nxt r = T c + S c).
+Proof. exact untracked_in_events. Qed.
+
+(* ---- run_until(end) / run_for(duration) / run() (loop `while clock.time < end: step()`, commit 98b7435f): the result
+   keeps the invariant, is the first step boundary at or after the end time reached by the engine steps taken, no step
+   is taken from a boundary at or after the end time, and the returned count is the number of steps ---- *)
+Theorem C10_run_until_spec : forall z e steps c c' n, run_until z e c steps = Ok (c', n) ->
+  e <= T c' /\ (n <= length steps)%nat /\ run_engine z c (firstn n steps) = Ok c' /\
+  forall k ck, (k < n)%nat -> run_engine z c (firstn k steps) = Ok ck -> T ck < e.
+Proof. intros z e steps. exact (run_until_spec z e steps). Qed.
+
+Theorem C10_run_until_invariant : forall z e steps c c' n, 0 < m c -> Inv c -> WF c -> engine_guards z c steps ->
+  run_until z e c steps = Ok (c', n) -> Inv c' /\ WF c' /\ e <= T c'.
+Proof. exact run_until_inv. Qed.
+
+Theorem C10_run_until_noop : forall z e c steps, e <= T c -> run_until z e c steps = Ok (c, O).
+Proof. exact run_until_noop. Qed.
+
+(* every step moves the clock strictly forward (so the loops above make progress) *)
+Theorem C10_step_progress : forall z req c acts c' idxs, Inv c -> engine_step z req c acts = Ok (c', idxs) -> T c < T c'.
+Proof. exact engine_step_progress. Qed.
+
 (* ---- regression: the two defects repaired in /repo (F-A 47eaecae, F-B 58535de7) are refuted by the old code's model ---- *)
 Theorem C10_old_any_guard_refuted : exists c req c', Inv c /\ T c + S c < E c /\ step_forward_any req c = Ok c' /\ ~ Inv c'.
 Proof. exact any_guard_refuted. Qed.
 Theorem C10_old_istep_refuted : exists c req c' idxs, Inv c /\ istep_old false req c [] = Ok (c', idxs) /\ ~ Inv c'.
 Proof. exact istep_old_refuted. Qed.
+(* F-C (a70d8de6): a clock that is handed the tracked simulants only passes an untracked simulant's time *)
+Theorem C10_old_tracked_only_refuted : exists c req c', Inv c /\ WF c /\
+  step_forward_on (is_tracked c) req c = Ok c' /\ (exists r, In r (rows c') /\ nxt r <= T c') /\ ~ Inv c'.
+Proof. exact tracked_only_refuted. Qed.
 
 (* ---- non-vacuity ---- *)
 (* a 1-tick clock, stop 12, standard step 2; three simulants asked for steps 2, 3, 7/2-rounded; simulant 0 alone *)
-Definition clk0 : clk := {| T := 0; S := 1; E := 12; m := 1; std := 2; rows := []; snooze := [] |}.
+Definition clk0 : clk := {| T := 0; S := 1; E := 12; m := 1; std := 2; rows := []; snooze := []; untracked := [] |}.
 Definition req3 (l : Z) : list (option Z) := [None; Some (2 + Z.abs l)].
-Lemma req3_ok c : req_ok c req3.
+Example req3_ok c : req_ok c req3.
 Proof. intros l. unfold req3, requested. cbn [min_some]. lia. Qed.
 Definition c3 : clk :=
-  {| T := 0; S := 2; E := 12; m := 1; std := 2; snooze := [];
+  {| T := 0; S := 2; E := 12; m := 1; std := 2; snooze := []; untracked := [];
      rows := [ {| lbl := 0; nxt := 2; stp := 2 |}; {| lbl := 1; nxt := 3; stp := 3 |}; {| lbl := 2; nxt := 4; stp := 4 |} ] |}.
 Example c3_is_initial : initialize req3 clk0 3 = Ok c3.
 Proof. reflexivity. Qed.
@@ -144,11 +181,13 @@ Proof.
 Qed.
 (* a history with a birth, a move-to-end request for the whole event index, and five steps: indexes and clocks *)
 Example c3_trace :
-  let acts := [ {| births := 0; sn := [] |}; {| births := 1; sn := [0] |}; {| births := 0; sn := [] |}; {| births := 0; sn := [] |} ] in
+  let acts := [ {| births := 0; sn := []; ut := [] |}; {| births := 1; sn := [0]; ut := [1] |};
+                {| births := 0; sn := []; ut := [] |}; {| births := 0; sn := []; ut := [] |} ] in
   match engine_step true req3 c3 acts with
   | Ok (c, idxs) => idxs = [[0]; [0]; [0; 3]; [0; 3]] /\ T c = 2 /\ S c = 1 /\
                     rows c = [ {| lbl := 0; nxt := 13; stp := 11 |}; {| lbl := 1; nxt := 3; stp := 3 |};
-                               {| lbl := 2; nxt := 4; stp := 4 |}; {| lbl := 3; nxt := 7; stp := 5 |} ]
+                               {| lbl := 2; nxt := 4; stp := 4 |}; {| lbl := 3; nxt := 7; stp := 5 |} ] /\
+                    untracked c = [1]
   | _ => False
   end.
 Proof. vm_compute. auto. Qed.
@@ -171,11 +210,25 @@ Qed.
 (* an event beyond stop + minimum with a pending move-to-end request is outside the invariant: the guard is needed *)
 Example step_guard_needed : exists c c', Inv c /\ WF c /\ step_forward req3 c = Ok c' /\ ~ Inv c'.
 Proof.
-  exists {| T := 8; S := 5; E := 10; m := 1; std := 2; snooze := [0]; rows := [ {| lbl := 0; nxt := 13; stp := 5 |} ] |}.
+  exists {| T := 8; S := 5; E := 10; m := 1; std := 2; snooze := [0]; untracked := [];
+            rows := [ {| lbl := 0; nxt := 13; stp := 5 |} ] |}.
   eexists. split; [|split; [reflexivity|split; [reflexivity|]]].
   - unfold Inv; simpl. split; [lia|]. split; [|reflexivity]. intros r [<-|[]]; simpl; lia.
   - intros [H _]. vm_compute in H. discriminate.
 Qed.
+
+(* run_until from c3: to time 4 takes the boundaries 2, 3, 4 (three steps) with simulant 1 untracked on the way; the
+   untracked simulant 1 is in the event at its time 3 *)
+Definition quiet4 : list ev_act := repeat {| births := 0; sn := []; ut := [] |} 4.
+Example run_until_example :
+  match run_until true 4 c3 [(req3, {| births := 0; sn := []; ut := [1] |} :: repeat {| births := 0; sn := []; ut := [] |} 3);
+                             (req3, quiet4); (req3, quiet4); (req3, quiet4); (req3, quiet4)] with
+  | Ok (c, n) => n = 3%nat /\ T c = 4 /\ untracked c = [1]
+  | _ => False
+  end /\
+  match engine_step true req3 (untrack_op c3 [1]) quiet4 with
+  | Ok (c, _) => snd (run_events c quiet4) = repeat [1] 4 | _ => False end.
+Proof. vm_compute. auto. Qed.
 
 Print Assumptions C10_post_spec.
 Print Assumptions C10_invariant.
@@ -194,3 +247,10 @@ Print Assumptions C10_take_steps_eq_run.
 Print Assumptions C10_istep_override.
 Print Assumptions C10_old_any_guard_refuted.
 Print Assumptions C10_old_istep_refuted.
+Print Assumptions C10_untracked_never_matters.
+Print Assumptions C10_untracked_in_events.
+Print Assumptions C10_run_until_spec.
+Print Assumptions C10_run_until_invariant.
+Print Assumptions C10_run_until_noop.
+Print Assumptions C10_step_progress.
+Print Assumptions C10_old_tracked_only_refuted.
